@@ -15,6 +15,7 @@ from fractions import Fraction
 
 import pandas as pd
 
+from harness import c05_guard as G
 from harness import c05_x as X5
 from harness import splink_util as su
 from harness.common import coq_Q, coq_Z, coq_bool, coq_list
@@ -166,7 +167,9 @@ def call_on(api, case, capture=False):
             store[key] = (api.register_table(nodes, f"verif_c11_nodes_{n}"), api.register_table(edges, f"verif_c11_edges_{n}"))
         nodes, edges = store[key]
     cap = []
-    plain = type(api).sql_pipeline_to_splink_dataframe.__get__(api)
+    api.__dict__.pop("sql_pipeline_to_splink_dataframe", None)
+    G.install(api, len(case["nodes"]))          # pass bound |V|^2+1 for every clustering inside this call
+    plain = api.sql_pipeline_to_splink_dataframe
     if capture:
         def wrap(pipeline, use_cache=True):
             sdf = plain(pipeline, use_cache)
@@ -179,8 +182,9 @@ def call_on(api, case, capture=False):
         tk, vals = case["thresholds"]
         kw = {"match_probability_thresholds": [k / 1024 for k in vals]} if tk == "p" else \
             {"match_weight_thresholds": list(vals)}
-        out = cpm(nodes, edges, api, "uid", output_cluster_summary_stats=bool(case.get("stats")), **kw)
-        recs = out.as_record_dict()
+        with G.time_limit(120 + 0.5 * len(case["nodes"]), "multi-threshold clustering"):
+            out = cpm(nodes, edges, api, "uid", output_cluster_summary_stats=bool(case.get("stats")), **kw)
+            recs = out.as_record_dict()
     finally:
         api.__dict__.pop("sql_pipeline_to_splink_dataframe", None)
     return recs, cap
